@@ -28,7 +28,7 @@ class H(Harness):
         for i in range(n):
             dyn = rnd.choice(['stochastic', 'synchronous', 'synchronous'])
             tb = kcommon.gen_table(rnd, dyn, allow=allow, maxacts=4)
-            out.append({'table': tb, 'dynamics': dyn, 'seed': rnd.randrange(1 << 30)})
+            out.append({'table': tb, 'dynamics': dyn, 'seed': rnd.randrange(1 << 30), 'prerun': rnd.random() < 0.25})
         try:
             from harness import compart
             out += compart.c05_cases(rnd, max(20, n // 5))
